@@ -80,6 +80,22 @@ func main() {
 	if os.Getenv("ALLIANCECHECK_DEBUG_INLINE") != "" {
 		fmt.Fprintf(os.Stderr, "inlined: %v\nnotes: %v\ndead: %v\n", e.Inlined, e.InlineNotes, e.DeadHelpers)
 	}
+	if *dump == "applyoverlay" {
+		// development aid: writes the source as analysed (helpers inlined, signatures normalised) over the scratch
+		// copy, so that the repository's own tests can be run on it - the rewrites must be behaviour preserving
+		if *dir == "/repo" {
+			fmt.Println("refusing to rewrite /repo: use a scratch copy")
+			os.Exit(2)
+		}
+		for name, b := range e.Overlay {
+			if err := os.WriteFile(name, b, 0o644); err != nil {
+				fmt.Println(err)
+				os.Exit(2)
+			}
+		}
+		fmt.Printf("wrote %d files; inlined %v; notes %v\n", len(e.Overlay), e.Inlined, e.InlineNotes)
+		return
+	}
 	if *dump == "renamelocals" || *dump == "renameall" || *dump == "swapbranches" || *dump == "indexloops" {
 		if *dir == "/repo" {
 			fmt.Println("refusing to rewrite /repo: use a scratch copy")
